@@ -42,7 +42,7 @@ def run(ctx):
     caught, devgraph, devesc = {}, {}, {}
     for d in ("DevLexicalOnly", "DevNoLinkChecks", "DevPrefixNoSeparator", "DevChmodDir"):
         dr = F.x_run(ctx, NAMES_Q, TARGETS_Q, maxe, dev=(d,), emit=True, invs=False, tag="MCXd",
-                     kinds=("dir", "dirc", "file", "sym") if d == "DevNoLinkChecks" else ("dir", "dirc", "file", "sym", "hard"))
+                     kinds=("dir", "file", "sym") if d == "DevNoLinkChecks" else ("dir", "dirc", "file", "sym", "hard"))
         devesc[d] = [e["arch"] for e in dr.edges if e.get("esc")]
         if not devesc[d]:
             raise vf.Infra("%s lets nothing escape in the bounded model (vacuous model)" % d)
@@ -75,7 +75,10 @@ def run(ctx):
     per_site, benign_all, sample = {}, [], None
     for pkg, site, devname, formats in F.X_SITES:
         for fmt in formats:
-            summ, mism, escapes = F.x_replay(ctx, cases, pkg=pkg, plain=(fmt == "plain"))
+            # quick: the plain-tar path of the HTTP extractor differs only in the decompression step: every 3rd archive
+            sel = cases if (fmt != "plain" or not quick) else [c for c in cases if c["id"] % 3 == ctx.seed % 3 or
+                                                               c.get("from_dev")]
+            summ, mism, escapes = F.x_replay(ctx, sel, pkg=pkg, plain=(fmt == "plain"), name="untar_%s.json" % fmt)
             if summ.get("site") != site:
                 raise vf.Infra("harness bound to %r, expected %r" % (summ.get("site"), site))
             per_site["%s(%s)" % (site, fmt)] = {k: summ[k] for k in tot}
